@@ -570,6 +570,8 @@ __wrap_mmap (void *addr, size_t len, int prot, int flags, int fd, off_t off)
   return p;
 }
 
+static int g_munmap_fault_errno = EINVAL;     /* munmap(2) documents EINVAL and ENOMEM */
+
 int
 __wrap_munmap (void *addr, size_t len)
 {
@@ -581,7 +583,7 @@ __wrap_munmap (void *addr, size_t len)
     {
       ev_add ("U%zu!", len);
       if (e) { e->live = 0; e->unmapfail = 1; }
-      errno = EINVAL;
+      errno = g_munmap_fault_errno;
       return -1;
     }
   for (int i = 0; i < 16; i++)
@@ -1623,6 +1625,13 @@ handle (char *line)
       for (int i = 0; i < nled; i++) led[i].live = led[i].unmapfail = 0;
       nled = 0;
       g_ledger_errs = 0;
+#endif
+      out_printf ("ok");
+    }
+  else if (!strcmp (c, "munmaperrno") && argc >= 2)
+    {
+#ifndef VW_NOWRAP
+      g_munmap_fault_errno = atoi (argv[1]);
 #endif
       out_printf ("ok");
     }
